@@ -220,3 +220,21 @@
 
 ; no legal move at all (used only in goals of the form "some move is legal")
 (define-fun noLegalMove ((p Pos)) Bool (forall ((m Mv)) (not (legal p m))))
+
+; ------------------------------------------------------------------ pieces attacking / reaching a square
+; pieces of colour c that attack square t when the occupancy is occ (looked up from the target square;
+; by the symmetry of the attack relations this is the set of attackers in the forward sense, lemma attackersToForward)
+(define-fun attackersTo ((p Pos) (c B8) (occ BB) (t Sq)) BB
+  (bvand (colSet p c)
+    (bvor (bvand (kingSet (sqbit t)) (pK p))
+          (bvand (knightSet (sqbit t)) (pN p))
+          (bvand (bishopWalk t occ) (bvor (pB p) (pQ p)))
+          (bvand (rookWalk t occ) (bvor (pR p) (pQ p)))
+          (bvand (pawnAttSet (other c) (sqbit t)) (pP p)))))
+; non-pawn, non-king pieces of colour c that can move to square t when the occupancy is occ (looked up
+; from the target square; forward reading: lemma reachersForward)
+(define-fun reachersTo ((p Pos) (c B8) (occ BB) (t Sq)) BB
+  (bvand (colSet p c)
+    (bvor (bvand (knightSet (sqbit t)) (pN p))
+          (bvand (bishopWalk t occ) (bvor (pB p) (pQ p)))
+          (bvand (rookWalk t occ) (bvor (pR p) (pQ p))))))
